@@ -98,6 +98,7 @@ def run(res, replay=None, visit_only=False):
     cases = prepare_many(res.seed, nschemas, cfgs)
     if visit_only:
         cases.append(prepare_fixed(composites_schema(), cfgs))
+    cases.append(prepare_fixed(edge_schema(), cfgs))
     outcome_dist = {"ok": 0, "assert": 0, "oob": 0}
     for ci, mc in enumerate(cases):
         if mc.error:
